@@ -134,8 +134,8 @@ func mutateCred(rnd *rand.Rand, mut, tok, other, kind string) (string, bool) {
 }
 
 type c06Row struct {
-	Kind, Mut string
-	Cfg       struct {
+	Kind, Mut, Life string
+	Cfg             struct {
 		Name, Global, Hash string
 		Rotated            []string
 	}
@@ -169,6 +169,9 @@ func runC06Hmac(rep *TReport, raw json.RawMessage) {
 func c06One(rep *TReport, raw json.RawMessage, r c06Row, rnd *rand.Rand) {
 	cfg := DefaultCfg()
 	cfg.RScopes = []string{}
+	if r.Life == "unlimited_refresh" {
+		cfg.LRT = -1
+	}
 	w := NewWorld(cfg)
 	w.Rec.Keep = false
 	w.Config.GlobalSecret = c06Secrets["S1"]
